@@ -61,7 +61,7 @@ def run (op : String) (args impl : List String) : Outcome :=
     let want := splitRecords delim consumed
     let spec : Option (Except String Unit) := match impl with
       | [recs, stable] =>
-        if stable != "1" then specFail "[C06] a record's bytes changed after it was handed over"
+        if stable != "1" then specFail "[C06,C13] a record's bytes changed after it was handed over (an item that has been read must never change)"
         else if !osLike then none
         else if recs != (if big then digest want else showStrList want) then
           specFail "[C06] the items are not the records of the stream"
